@@ -122,6 +122,8 @@ def generate(rng, tier):
                 files[os.path.join(p["dir"], "benches/bn.rs")] = SRC
                 if te:
                     lines += ["", "[[bench]]", 'name = "bn"'] + ed
+        if xshare and xshare[0] == p["name"]:
+            lines += ["", "[[example]]", 'name = "shared_from_sibling"', 'path = "%s"' % xshare[1], 'edition = "%s"' % xshare[2]]
         for sect in ("dependencies", "dev-dependencies", "build-dependencies"):
             ds = [dn for dn in p["deps"] if p.get("depkind", {}).get(dn, "dependencies") == sect]
             if ds:
@@ -131,6 +133,13 @@ def generate(rng, tier):
                     lines.append('%s = { path = "%s" }' % (dn, rel))
         files[os.path.join(p["dir"], "Cargo.toml")] = "\n".join(lines) + "\n" + workspace_hdr
 
+    # a source file shared by targets of two different packages, reached through `..` from the second one
+    xshare = None
+    if len(pk) >= 2 and rng.chance(25):
+        a, b = rng.sample(pk, 2)
+        if any(t["kind"] == "lib" for t in a["targets"]) and not a["dir"].startswith(b["dir"] + "/") and not b["dir"].startswith(a["dir"] + "/"):
+            la = [t for t in a["targets"] if t["kind"] == "lib"][0]
+            xshare = (b["name"], os.path.join(os.path.relpath(a["dir"], b["dir"]), "src/lib.rs"), la["edition"] or a["edition"] or "2015")
     members = [p for p in pk if p["dir"] != "ws"]
     ws_hdr = ""
     if not single:
